@@ -682,7 +682,10 @@ macro_rules! boolean_array_impl {
                 type Output = Self;
 
                 fn not(self) -> Self::Output {
-                    Self(self.0.not())
+                    let mut v = self.0.not();
+                    // `BitArray::not` inverts whole storage bytes, keep the padding bits zero
+                    v[$bits..].fill(false);
+                    Self(v)
                 }
             }
 
